@@ -1057,6 +1057,25 @@ func (e *env) oracles(pl *Plan, prop string, tasks []*taskState, ref [][]string,
 				return fail("returned-value-stable", p.c.Op, "retained-result-changed", fmt.Sprintf("task %d: value returned by call %d (%s) changed before the end of the run", ti, t.retainBad, p.c.Op))
 			}
 		}
+	case "C02", "C03", "C04", "C06":
+		// These properties fix, for every input, what the call returns (the code of a
+		// step, a window verdict, validation <=> generation). World B decides them for
+		// one caller at a time; here the same calls are made while other callers are
+		// inside the library: an answer that differs from the answer to the same call
+		// made alone contradicts the property for one of the two.
+		own := map[string]string{"C02": "TOTP", "C03": "HOTP", "C04": "TOTP", "C06": "OCRA"}[prop]
+		for ti, t := range tasks {
+			for ci, p := range t.calls {
+				r := &t.res[ci]
+				if !r.done || !strings.HasSuffix(p.c.Op, own) {
+					continue
+				}
+				verifh.Count("oracle.calls-compared-with-the-same-call-alone", 1)
+				if got := canon(p.c.Op, snapView(r)); got != ref[ti][ci] {
+					return fail("answer-independent-of-other-callers", p.c.Op, "differs-from-the-same-call-alone", fmt.Sprintf("task %d call %d %s: %s while %d other tasks were calling the library, %s alone", ti, ci, p.c.Op, clip(got), len(tasks)-1, clip(ref[ti][ci])))
+				}
+			}
+		}
 	case "C13":
 		// the verdict clause of C13 for validations made while other callers are
 		// inside the library (World B decides the sequential domain)
